@@ -18,6 +18,7 @@ package qrAlgorithm
 
 /* -------------------------------------------------------------------------- */
 
+import "github.com/pbenner/autodiff/verifhook"
 import   "fmt"
 import   "math"
 
@@ -274,6 +275,7 @@ func qrAlgorithm(inSitu *InSitu, epsilon float64) (Matrix, Matrix, error) {
 
   // apply Francis QR steps
   for p, q := 0, 0; q < n-1; {
+    verifhook.Tick("qr.francis")
 
     for i := 0; i < n-1; i++ {
       h11 := h.ConstAt(i  ,i  ).GetFloat64()
@@ -307,6 +309,7 @@ func qrAlgorithm(inSitu *InSitu, epsilon float64) (Matrix, Matrix, error) {
     }
     // run QR steps until convergence
     for {
+      verifhook.Tick("qr.block2x2")
       h11 := h.ConstAt(i  ,i  ).GetFloat64()
       h21 := h.ConstAt(i+1,i  ).GetFloat64()
       h22 := h.ConstAt(i+1,i+1).GetFloat64()
